@@ -180,6 +180,23 @@ func selfTestNTT() error {
 	return nil
 }
 
+// selfTestScanner: the byte counters used for tail scanning agree with the samplers.
+func selfTestScanner() error {
+	sc := NewScanner()
+	for i := 0; i < 40; i++ {
+		seed := H(66, []byte("scanner self-test"), []byte{byte(i)})
+		for _, p := range []*Params{all[0], all[1]} {
+			if _, n := p.rejBounded(seed); n != sc.RejBoundedBytes(p.Eta, seed[:30], seed[30:]) {
+				return fmt.Errorf("RejBoundedBytes disagrees with RejBoundedPoly (eta %d)", p.Eta)
+			}
+		}
+		if 3*len(RejNTTCandidates(seed[:34])) != sc.RejNTTBytes(seed[:34]) {
+			return fmt.Errorf("RejNTTBytes disagrees with RejNTTPoly")
+		}
+	}
+	return nil
+}
+
 func selfTestACVP(harness string) (int, error) {
 	path := filepath.Join(harness, "zz_verif", "ref", "mldsa", "testdata", "acvp_subset.json.gz")
 	raw, err := os.ReadFile(path)
@@ -259,6 +276,10 @@ func SelfTest(harness string, kat bool) (string, error) {
 	}
 	stOnce[idx].Do(func() {
 		if err := selfTestNTT(); err != nil {
+			stErr[idx] = err
+			return
+		}
+		if err := selfTestScanner(); err != nil {
 			stErr[idx] = err
 			return
 		}
